@@ -34,8 +34,45 @@ def both(*fs):
 
 C, PY, PB, PL, SC = ('lib/check/msgformat/c.py', 'lib/check/msgformat/python.py', 'lib/check/msgformat/pybrace.py', 'lib/check/msgformat/perlbrace.py', 'lib/strformat/c.py')
 TG = 'lib/tags.py'
+MI = 'lib/check/msgformat/__init__.py'
 GT = 'lib/gettext.py'
 TIES = {
+ 'fmtmsg': {
+  'translators': ['fmtmsg'], 'module': 'I18n.Props.C14MsgTie', 'tests': ['tests/test_strformat_c.py'],
+  'edits': {
+   # the mutants of tools/checks/C14_mutants.py that live in check_message
+   'tolerance-3-elements': ed(MI, ("elif len(preimage) == 2 and preimage[0] == 0:", "elif len(preimage) <= 3 and preimage[0] == 0:")),
+   'range-ignored': ed(MI, ("if flags.range_min <= x <= flags.range_max", "if 0 <= x")),
+   'n1-source-plural': ed(MI, ("                    d.src_loc = 'msgid'\n                    d.src_fmt = msgid_fmt\n", "")),
+   'tolerance-two-elements': ed(MI, ("elif len(preimage) <= 1:", "elif len(preimage) <= 2:")),
+   'range-off-by-one': ed(MI, ("if flags.range_min <= x <= flags.range_max", "if flags.range_min < x <= flags.range_max")),
+   'n1-tolerance-unconditional': ed(MI, ("                        len(msgid_fmt) == len(msgid_plural_fmt)\n", "                        True\n")),
+   'msgstr-tolerant': ed(MI, ("            d.omitted_int_conv_ok = False\n            strings += [d]", "            d.omitted_int_conv_ok = True\n            strings += [d]")),
+   # further one-line changes
+   'msgid-error-continues': ed(MI, ("                    # reporting errors against msgstr is not worth the trouble.\n                    return", "                    # reporting errors against msgstr is not worth the trouble.\n                    continue")),
+   'template-args-swapped': ed(MI, ("                'msgid_plural', msgid_fmts[1],\n                'msgid', msgid_fmts[0],", "                'msgid', msgid_fmts[0],\n                'msgid_plural', msgid_fmts[1],")),
+   'fuzzy-not-skipped': ed(MI, ("        if flags.fuzzy:\n            return\n", "")),
+   'encoding-not-required': ed(MI, ("        if ctx.encoding is None:\n            return\n", "")),
+   'msgids-after-template-args': ed(MI, ("        if ctx.is_template and (len(msgid_fmts) == 2):\n            self.check_args(\n                message,\n                'msgid_plural', msgid_fmts[1],\n                'msgid', msgid_fmts[0],\n                omitted_int_conv_ok=True,\n            )\n        self.check_msgids(message, msgid_fmts)\n",
+                                           "        self.check_msgids(message, msgid_fmts)\n        if ctx.is_template and (len(msgid_fmts) == 2):\n            self.check_args(\n                message,\n                'msgid_plural', msgid_fmts[1],\n                'msgid', msgid_fmts[0],\n                omitted_int_conv_ok=True,\n            )\n")),
+   'zero-second': ed(MI, ("elif len(preimage) == 2 and preimage[0] == 0:", "elif len(preimage) == 2 and preimage[1] == 0:")),
+   'preimage-eq-0': ed(MI, ("if preimage == [1]:", "if preimage == [0]:")),
+   'plural-src-msgid': ed(MI, ("                d.src_loc = 'msgid_plural'\n                d.src_fmt = msgid_plural_fmt", "                d.src_loc = 'msgid_plural'\n                d.src_fmt = msgid_fmt")),
+   'keyerror-not-skipped': ed(MI, ("                except KeyError:\n                    # broken plural forms\n                    continue", "                except KeyError:\n                    # broken plural forms\n                    preimage = []")),
+   'plural-without-preimage': ed(MI, ("if has_msgstr_plural and ctx.plural_preimage:", "if has_msgstr_plural:")),
+   'unsorted-forms': ed(MI, ("for i, s in sorted(message.msgstr_plural.items()):", "for i, s in message.msgstr_plural.items():")),
+   'seeded/C14-a': seeded('C14-a'),
+   # behaviour-preserving
+   'bp-rename': ed(MI, ("        msgids = [message.msgid]\n        if message.msgid_plural is not None:\n            msgids += [message.msgid_plural]\n        msgid_fmts = {}\n        for i, s in enumerate(msgids):", "        sources = [message.msgid]\n        if message.msgid_plural is not None:\n            sources += [message.msgid_plural]\n        msgid_fmts = {}\n        for i, s in enumerate(sources):"),
+                           ("                preimage = [\n                    x for x in preimage\n                    if flags.range_min <= x <= flags.range_max\n                ]", "                preimage = [\n                    n for n in preimage\n                    if flags.range_min <= n <= flags.range_max\n                ]"),
+                           ("        strings = []\n", "        todo = []\n"), ("            strings += [d]\n        if has_msgstr_plural", "            todo += [d]\n        if has_msgstr_plural"), ("                strings += [d]\n        for d in strings:", "                todo += [d]\n        for d in todo:")),
+   'bp-inline-has-msgstr': ed(MI, ("        has_msgstr = bool(message.msgstr)\n", ""), ("        if has_msgstr:\n", "        if bool(message.msgstr):\n")),
+   'bp-comments': ed(MI, ("        msgids = [message.msgid]\n", "        # the source strings:\n        msgids = [message.msgid]\n"), ("        for d in strings:\n", "        # compare\n        for d in strings:\n")),
+   'bp-lt-2': ed(MI, ("elif len(preimage) <= 1:", "elif len(preimage) < 2:")),
+   'bp-attr-order': ed(MI, ("            d.src_loc = 'msgid'\n            d.src_fmt = msgid_fmts.get(0)\n            d.dst_loc = 'msgstr'\n", "            d.dst_loc = 'msgstr'\n            d.src_fmt = msgid_fmts.get(0)\n            d.src_loc = 'msgid'\n")),
+   'bp-hoist-gets': ed(MI, ("            for i, s in sorted(message.msgstr_plural.items()):\n                assert isinstance(i, int)\n                d = types.SimpleNamespace()\n                msgid_fmt = msgid_fmts.get(0)\n                msgid_plural_fmt = msgid_fmts.get(1)\n",
+                                   "            msgid_fmt = msgid_fmts.get(0)\n            msgid_plural_fmt = msgid_fmts.get(1)\n            for i, s in sorted(message.msgstr_plural.items()):\n                assert isinstance(i, int)\n                d = types.SimpleNamespace()\n")),
+  }},
  'gettextpf': {
   'translators': ['gettextpf'], 'module': 'I18n.Props.C07Tie', 'tests': ['tests/test_gettext.py'],
   'edits': {
